@@ -1,4 +1,5 @@
 import Stbem.Model.InitialPotential
+import Stbem.Gen.InitPotGen
 import Stbem.Model.Mesh
 import Driver.QuadCmd
 import Driver.FormulaCmd
@@ -12,7 +13,15 @@ import Driver.FormulaCmd
        dom     = `unit` | `lshape` | `sq:<P>`  (the square [0,P]²: `PiSquare` with a rational stand-in for π)
        answer  = `ok <load>|<id>:<class>:<val> …` (contributions sorted by element index;
                  class I = identical, A = touching at γ(c), B = touching at γ(d), F = far)  or  `err <tag>`
-   request        `ip vec <dom> <fuel> <a,b,c,d,x0,y0,x1,y1> …`   →   `ok v1,v2,…`  -/
+   request        `ip vec <dom> <fuel> <a,b,c,d,x0,y0,x1,y1> …`   →   `ok v1,v2,…`
+   twins          `ip genlin …`, `ip genvec …`, `ip genpool …`: the same requests answered by the functions REGENERATED from
+                  src/initial_potential.py (`Stbem.Gen.InitPotGen`, translate/initpotgen.py): `linform`,
+                  `linformVectorSerial`, `linformVectorPool` with `self.initial_mesh` = the regenerated factory
+                  `UnitSquareBoundaryRefined` / `LShapeBoundaryRefined` / `PiSquareBoundaryRefined P` (of src/initial_mesh.py)
+   request        `ip geneval <gauss rule1> <exp> <t> <x> <y> <a> <b> <c> <d>`  →  `ok <value>`: generated `evaluate` with
+                  `space_integrator = f ↦ ProductScheme2D(gauss).integrate(f, a, b, c, d)`; exp = stand-in as e1
+   request        `ip genevalmesh <gauss rule1> <exp> <dom> <t> <x> <y> <id,id,…>`  →  `ok <value>` | `err <tag>`: generated
+                  `evaluate_mesh` on the mesh obtained from `dom` by refining the listed elements in order  -/
 namespace Driver
 open Stbem.InitPot Stbem.Quad Stbem.Quadtree
 
@@ -82,6 +91,20 @@ def showLinform (s : Stbem.InitPot.Seg) (m : QT) (r : Rat × List (Nat × Rat)) 
   "ok " ++ showRat r.1 ++ "|" ++
     " ".intercalate (ips.map fun p => toString p.1 ++ ":" ++ cls p.1 ++ ":" ++ showRat p.2)
 
+/-- `self.initial_mesh` of the generated twins: the factory REGENERATED from src/initial_mesh.py for the domain -/
+def genFactory? (s : String) (fuel : Nat) : Option (Stbem.InitPot.Pt → Stbem.InitPot.Pt → Except String QT) :=
+  match s.splitOn ":" with
+  | ["unit"] => some (Stbem.Gen.InitPotGen.UnitSquareBoundaryRefined fuel)
+  | ["lshape"] => some (Stbem.Gen.InitPotGen.LShapeBoundaryRefined fuel)
+  | ["sq", p] => (parseRat? p).map fun p => Stbem.Gen.InitPotGen.PiSquareBoundaryRefined p fuel
+  | _ => none
+
+/-- the answer of `ip genlin`: the generated `linform` returns the elements themselves -/
+def showGenLinform (s : Stbem.InitPot.Seg) (r : Rat × List (Elem × Rat)) : String :=
+  let ips := Stbem.Mesh.sortBy (fun a b : Elem × Rat => decide (a.1.id < b.1.id)) r.2
+  "ok " ++ showRat r.1 ++ "|" ++
+    " ".intercalate (ips.map fun p => toString p.1.id ++ ":" ++ className (cellClass s p.1) ++ ":" ++ showRat p.2)
+
 def ipCmd (st : IpSt) (args : List String) : IpSt × String :=
   let bad := (st, "bad-op")
   match args with
@@ -108,6 +131,44 @@ def ipCmd (st : IpSt) (args : List String) : IpSt × String :=
       | .ok v => (st, "ok " ++ showRatList v)
       | .error e => (st, "err " ++ e)
     | _, _, _, _ => bad
+  | ["ip", "geneval", gauss, ex, t, x, y, a, b, c, d] =>
+    match st.ctx, parseRule1? gauss, parseE1? ex, [t, x, y, a, b, c, d].mapM parseRat? with
+    | some C, some gauss, some ex, some [t, x, y, a, b, c, d] =>
+      let S := { C.fns with exp := ex }
+      (st, "ok " ++ showRat (Stbem.Gen.InitPotGen.evaluate S C.u0
+        (fun f => integrate2 (product2 gauss gauss) (fun p q => f (p, q)) a b c d) t (x, y)))
+    | _, _, _, _ => bad
+  | ["ip", "genevalmesh", gauss, ex, dom, t, x, y, ids] =>
+    match st.ctx, parseRule1? gauss, parseE1? ex, parseDom? dom, [t, x, y].mapM parseRat?,
+        (if ids == "-" then some [] else (ids.splitOn ",").mapM String.toNat?) with
+    | some C, some gauss, some ex, some dom, some [t, x, y], some ids =>
+      let S := { C.fns with exp := ex }
+      match ids.foldlM refineId dom with
+      | .error e => (st, "err mesh:" ++ e)
+      | .ok m =>
+        match Stbem.Gen.InitPotGen.evaluate_mesh S gauss C.u0 t (x, y) m with
+        | .ok v => (st, "ok " ++ showRat v)
+        | .error e => (st, "err " ++ e)
+    | _, _, _, _, _, _ => bad
+  | "ip" :: "genlin" :: dom :: fuel :: rest =>
+    match st.ctx, fuel.toNat?.bind (genFactory? dom), (rest.mapM parseRat?).bind parseSeg8? with
+    | some C, some F, some s =>
+      match Stbem.Gen.InitPotGen.linform C.fns C.rule C.u0 (some F) s with
+      | .ok r => (st, showGenLinform s r)
+      | .error e => (st, "err " ++ e)
+    | _, _, _ => bad
+  | "ip" :: which :: dom :: fuel :: segs =>
+    match st.ctx, fuel.toNat?.bind (genFactory? dom), segs.mapM (fun s => (parseRatList? s).bind parseSeg8?) with
+    | some C, some F, some segs =>
+      let F := some F
+      let r := if which == "genvec" then some (Stbem.Gen.InitPotGen.linformVectorSerial C.fns C.rule C.u0 F segs)
+        else if which == "genpool" then some (Stbem.Gen.InitPotGen.linformVectorPool C.fns C.rule C.u0 F segs)
+        else none
+      match r with
+      | some (.ok v) => (st, "ok " ++ showRatList v)
+      | some (.error e) => (st, "err " ++ e)
+      | none => bad
+    | _, _, _ => bad
   | _ => bad
 
 end Driver
